@@ -19,7 +19,15 @@ EXPLANATION = (
     "number of conversion sites per function does not fall below the confirmed floor, and the operands of the built "
     "IntrinsicOp / ternary / return / initialiser nodes originate from apply. C03.arity: argument-count window before "
     "a candidate is considered. C03.total: Expression::get_type and IntrinsicOp::get_return_type have an explicit arm "
-    "for every variant (no catch-all)."
+    "for every variant (no catch-all). C03.elab / C03.access / C03.call / C03.stmt (finite-map reader, elabmodel.py): "
+    "parse_expr_binop, parse_expr_unaryop, parse_expr_ternary, the Member and ArraySubscript arms of parse_expr_unchecked, "
+    "write_function, the return arm of parse_statement and parse_initializer are evaluated - sub-expression parsers "
+    "scripted, type registry = a 99-type universe - over matrices of operand types; every accepted node is typed again by "
+    "rssl's own Expression::get_type / IntrinsicOp::get_return_type (asserts included) and must get, without aborting, the "
+    "type the typer reported, with its operands in order and only numeric / modifier-only casts inserted; call arguments, "
+    "returned values and initialisers must have exactly the declared type; out/inout arguments, assignment and ++/-- "
+    "targets must be mutable lvalues; a part selected from a const value must be const (C03.constness). When these "
+    "evaluations are readable they replace the MIR dominance rules C03.assign / C03.incdec, which remain the fallback."
 )
 ASSUMPTIONS = ["rustc THIR/MIR is a faithful view of the source",
                "Rust ownership: an ir::Expression moved into ImplicitConversion::apply cannot also be stored raw"]
@@ -386,11 +394,214 @@ def rule_access_eval(chk):
     return True
 
 
+def _call_check(el, what, res, operands, params, given, bad):
+    """an accepted call: Call node, the given operands in order, argument i has exactly the parameter's type (and is a
+    non-const lvalue for out / inout), reported type = return type"""
+    node, ty = res[1], res[2]
+    if not (isinstance(node, I.Enum) and node.variant == "Call" and isinstance(node.fields.get("2"), list)):
+        addbad(bad, "%s: elaborates to %s, not to a call" % (what, el.show(node)))
+        return
+    args = node.fields["2"]
+    tags = list(el.TAGS[:given])
+    if len(args) != given or [el.leaves(a) for a in args] != [[t] for t in tags]:
+        addbad(bad, "%s: the call's arguments are %s, must be the %d given expressions in order" % (what, [el.leaves(a) for a in args], given))
+        return
+    for i, a in enumerate(args):
+        t = el.node_type(a, operands)
+        if t[0] != "ok":
+            addbad(bad, "%s: argument %d has no type (%s)" % (what, i, t[0]))
+            return
+        pt, pm, im = params[i]
+        want = el.u.type_id(pt, pm)
+        same = t[1].fields["0"] == want if im != "In" else el.u.split(t[1].fields["0"])[0] == el.u.split(want)[0]
+        if not same:
+            addbad(bad, "%s: argument %d reaches the call as %s, the parameter is %s%s" % (what, i, el.describe(t[1]), {0: "", 1: "const ", 2: "volatile "}[pm], pt))
+            return
+        if im != "In" and not el.is_lvalue(t[1]):
+            addbad(bad, "%s: argument %d for an %s parameter is not an lvalue (%s)" % (what, i, im.lower(), el.show(a)))
+            return
+    if not el.casts_ok(node, operands):
+        addbad(bad, "%s: an argument is converted in a way no implicit conversion allows: %s" % (what, el.show(node)))
+    if ty is not None and el.describe(ty) != "Float32 rvalue":
+        addbad(bad, "%s: reported type %s is not the function's return type" % (what, el.describe(ty)))
+
+
+def _call_task(ptype):
+    """one overload f(<im> <mod> ptype p) called with every operand -> (ptype, readable, cases, accepted, bad)"""
+    el, ls, rs, intr = _elab()
+    bad = {"type": [], "In": None, "Out": None, "InOut": None}
+    cases = n_ok = 0
+    for pm in (0, 1):
+        for im in (("In", "Out", "InOut") if not pm else ("In",)):     # `out const T` is not a meaningful parameter
+            for a in ls:
+                cases += 1
+                res, operands = el.run_call([(ptype, pm, im)], [a])
+                what = "f(%s %s%s) called with %s" % (im.lower(), "const " if pm else "", ptype, el.describe(a))
+                if res[0] == "unreadable":
+                    return (ptype, False, cases, n_ok, res[1])
+                if res[0] == "aborts":
+                    addbad(bad, "%s: elaboration aborts (%s)" % (what, res[1]))
+                    continue
+                if res[0] == "Err":
+                    continue
+                n_ok += 1
+                if im != "In" and (not el.is_lvalue(a) or (el.is_const(a) and not pm)):
+                    bad[im] = bad[im] or "%s is accepted: %s" % (what, "the argument is not an lvalue" if not el.is_lvalue(a) else "a const argument can be written through the parameter")
+                    continue
+                _call_check(el, what, res, operands, [(ptype, pm, im)], 1, bad)
+    # two parameters (positions), a defaulted parameter, and the argument-count window
+    for a in ls[:8]:
+        b = el.ety("Int32", 0, "Rvalue")
+        params = [(ptype, 0, "InOut"), ("Float32", 0, "In")]
+        for given, defaults in ((2, 0), (1, 1), (1, 0), (3, 0)):
+            cases += 1
+            args = [a, b, b][:given]
+            res, operands = el.run_call(params if given < 3 else params, args, defaults)
+            what = "f(inout %s, float%s) called with %d arguments (%s, ..)" % (ptype, " = default" if defaults else "", given, el.describe(a))
+            if res[0] == "unreadable":
+                return (ptype, False, cases, n_ok, res[1])
+            if res[0] == "aborts":
+                addbad(bad, "%s: elaboration aborts (%s)" % (what, res[1]))
+                continue
+            if res[0] == "Err":
+                continue
+            n_ok += 1
+            if given > 2 or given < 2 - defaults:
+                addbad(bad, "%s is accepted: wrong number of arguments" % what)
+                continue
+            _call_check(el, what, res, operands, params, given, bad)
+    return (ptype, True, cases, n_ok, bad)
+
+
+def rule_call_eval(chk):
+    """write_function (find_function_type + find_overload_casts + apply_casts) evaluated for one scripted overload over
+    parameter types x in/out/inout x const x every operand: an accepted call passes each argument with exactly the
+    parameter's type, out / inout arguments are non-const lvalues, argument order and count are kept. True when readable."""
+    f = chk.facts
+    el, ls, rs, intr = _elab()
+    wf = f.fn("write_function", TY)
+    if not wf:
+        return False
+    ptypes = [t for t in QUICK_TYPES if t in el.u.names]
+    res = _pmap(_call_task, ptypes)
+    if not all(r[1] for r in res):
+        chk.note("C03.call: write_function is not readable (%s)" % [(r[0], r[4]) for r in res if not r[1]][:1])
+        return False
+    for ptype, _r, cases, n_ok, bad in sorted(res):
+        chk.ob("C03.call/args/" + ptype, not bad["type"], "%d calls (%d accepted): every argument reaches the call with exactly the parameter's type, in order" % (cases, n_ok)
+               if not bad["type"] else "; ".join(m for k, m in bad["type"]), where(wf), sample={"param": ptype, "cases": cases, "accepted": n_ok})
+    for im in ("Out", "InOut"):
+        b = [r[4][im] for r in res if r[4][im]]
+        chk.ob("C03.call/%s-needs-mutable-lvalue" % im.lower(), not b, "rvalue and const arguments are refused for %s parameters" % im.lower() if not b else b[0], where(wf))
+    chk.floor("C03.floor/call-accepted", sum(r[3] for r in res), 300, "accepted calls checked", where(wf))
+    return True
+
+
+def _base_of(el, node, operands):
+    t = el.node_type(node, operands)
+    return el.u.split(t[1].fields["0"])[0] if t[0] == "ok" else None
+
+
+def _stmt_task(tname):
+    """`return L;` in a function returning tname, and a variable of type tname initialised from an expression / an
+    aggregate -> (tname, readable, cases, accepted, bad)"""
+    el, ls, rs, intr = _elab()
+    bad = {"type": []}
+    cases = n_ok = 0
+    want = el.u.names[tname]
+    for a in ls:
+        cases += 1
+        res, operands = el.run_return(tname, a)
+        what = "`return %s;` in a function returning %s" % (el.describe(a), tname)
+        if res[0] == "unreadable":
+            return (tname, False, cases, n_ok, res[1])
+        if res[0] == "aborts":
+            addbad(bad, "%s: elaboration aborts (%s)" % (what, res[1]))
+        if res[0] != "Ok":
+            continue
+        n_ok += 1
+        sts = res[1]
+        e = None
+        if isinstance(sts, list) and len(sts) == 1 and isinstance(sts[0], I.Enum):
+            k = sts[0].fields.get("kind")
+            if isinstance(k, I.Enum) and k.variant == "Return" and isinstance(k.fields.get("0"), I.Enum) and k.fields["0"].variant == "Some":
+                e = k.fields["0"].fields["0"]
+        if e is None or el.leaves(e) != ["L"]:
+            addbad(bad, "%s: does not elaborate to a return of the expression" % what)
+        elif _base_of(el, e, operands) != want or not el.casts_ok(e, operands):
+            addbad(bad, "%s: the returned expression %s does not have the return type" % (what, el.show(e)))
+    if tname == "Void":
+        return (tname, True, cases, n_ok, bad)
+    layer = el.u.base[want]
+    members = {"Struct": ["Float32", "Float324"]}.get(tname)
+    if layer.variant == "Vector":
+        members = [[k for k, v in el.u.names.items() if v == layer.fields["0"].fields["0"]][0]] * layer.fields["1"]
+    for mod in (0, 1):
+        for a in ls:
+            forms = [a]
+            if members and len(members) <= 4:
+                forms.append([a] * len(members))
+                forms.append([a] * (len(members) + 1))
+            for form in forms:
+                cases += 1
+                res, operands = el.run_initializer(tname, mod, form)
+                what = "%s%s x = %s" % ("const " if mod else "", tname, el.describe(a) if not isinstance(form, list) else "{ %s }" % ", ".join([el.describe(a)] * len(form)))
+                if res[0] == "unreadable":
+                    return (tname, False, cases, n_ok, res[1])
+                if res[0] == "aborts":
+                    addbad(bad, "%s: elaboration aborts (%s)" % (what, res[1]))
+                if res[0] != "Ok":
+                    continue
+                n_ok += 1
+                init = res[1]
+                if isinstance(init, I.Enum) and init.variant == "Expression":
+                    e = init.fields["0"]
+                    # `{ x }` for a scalar is read as `x`
+                    if el.leaves(e) != ["L"] or _base_of(el, e, operands) != want or not el.casts_ok(e, operands):
+                        addbad(bad, "%s: the initialiser %s does not have the variable's type" % (what, el.show(e)))
+                elif isinstance(init, I.Enum) and init.variant == "Aggregate" and isinstance(form, list) and members:
+                    els = init.fields["0"]
+                    if len(form) != len(members) or len(els) != len(members):
+                        addbad(bad, "%s: an aggregate of %d elements initialises %d members" % (what, len(form), len(members)))
+                        continue
+                    for i, (x, mname) in enumerate(zip(els, members)):
+                        e = x.fields.get("0") if isinstance(x, I.Enum) and x.variant == "Expression" else None
+                        if e is None or el.leaves(e) != [el.TAGS[i]] or _base_of(el, e, operands) != el.u.names[mname] or not el.casts_ok(e, operands):
+                            addbad(bad, "%s: element %d (%s) does not have the member's type %s" % (what, i, el.show(e) if e is not None else x, mname))
+                            break
+                else:
+                    addbad(bad, "%s: elaborates to %s" % (what, repr(init)[:80]))
+    return (tname, True, cases, n_ok, bad)
+
+
+def rule_stmt_eval(chk):
+    """The return arm of parse_statement and parse_initializer evaluated over return / variable types x every operand:
+    what is returned / stored has exactly the declared type (conversion made explicit), aggregates match members one
+    to one."""
+    f = chk.facts
+    el, ls, rs, intr = _elab()
+    ps, pi = f.fn("parse_statement", TY), f.fn("parse_initializer", TY)
+    if not ps or not pi:
+        return False
+    names = [t for t in QUICK_TYPES + ["Void"] if t in el.u.names]
+    res = _pmap(_stmt_task, names)
+    if not all(r[1] for r in res):
+        chk.note("C03.stmt: parse_statement / parse_initializer are not readable (%s)" % [(r[0], r[4]) for r in res if not r[1]][:1])
+        return False
+    for tname, _r, cases, n_ok, bad in sorted(res):
+        chk.ob("C03.stmt/" + tname, not bad["type"], "%d return statements and initialisers (%d accepted): the value has exactly the declared type" % (cases, n_ok)
+               if not bad["type"] else "; ".join(m for k, m in bad["type"]), where(ps), sample={"type": tname, "cases": cases, "accepted": n_ok})
+    chk.floor("C03.floor/stmt-accepted", sum(r[3] for r in res), 300, "accepted returns / initialisers checked", where(ps))
+    return True
+
+
 
 def run(chk):
     f = chk.facts
     rb, ru = rule_elab_eval(chk)
     rule_access_eval(chk)
+    rule_call_eval(chk)
+    rule_stmt_eval(chk)
     if not rb:
         rule_assign(chk)
     if not ru:
